@@ -100,6 +100,9 @@ def run_property(prop, tier, rule_fn, meta):
         ctx = Ctx(F, cfg, prop, tier)
         try:
             rule_fn(ctx)
+            if tier == 'thorough' and cfg == 'dev' and meta.get('witnesses'):
+                from . import witness
+                witness.run(ctx, meta['witnesses'])
         except MissingAnchor as e:
             ctx.bad('ANCHOR', 'missing', None, '-', str(e))
         except Exception as e:  # an analysis crash is a broken check, never a silent pass
@@ -110,10 +113,16 @@ def run_property(prop, tier, rule_fn, meta):
         for k, v in ctx.stats.items():
             stats[k] = stats.get(k, 0) + v
     extra = {}
-    if tier == 'thorough' and meta.get('perturb'):
-        # B10: fact-level perturbations — every rule instance must fire on its canonical breaking change
+    if tier == 'thorough' and not meta.get('no_perturb'):
+        # B10: fact-level perturbations — the matchers are exercised on broken copies of the fact base
+        from . import perturb
         doc, _ = extract.extract('dev')
-        extra['perturbations'] = meta['perturb'](doc, rule_fn, prop)
+        canaries = []
+        cf = os.path.join(VERIF, 'selftest', 'canaries.json')
+        if os.path.isfile(cf):
+            with open(cf) as f:
+                canaries = json.load(f).get(prop, [])
+        extra['perturbations'] = perturb.run(doc, rule_fn, prop, canaries)
     return finish(prop, tier, seed, all_results, infos, analysed, stats, meta, t0, crashed, extra)
 
 
